@@ -280,21 +280,39 @@ pub fn build(root: &Node, cfg: &LayoutCfg, rng: &mut Rng) -> Vec<u8> {
         while (1usize << (maxdepth + 1)) - 1 < n {
             maxdepth += 1;
         }
-        fn build(sorted: &[usize], depth: usize, maxdepth: usize, slot_of: &[usize], ents: &mut Vec<Option<Ent>>) -> u32 {
+        // a valid red-black colouring by levels: the root level is black; if the deepest level is
+        // incomplete it must be red (and the one above it black); any other levels may be red as
+        // long as no two adjacent levels are
+        let complete = n + 1 == (1usize << (maxdepth + 1));
+        let mut red_levels = vec![false; maxdepth + 1];
+        let top_free = if complete { maxdepth } else { maxdepth.saturating_sub(2) };
+        if !complete && maxdepth > 0 {
+            red_levels[maxdepth] = true;
+        }
+        let mut lvl = 1;
+        while lvl <= top_free && maxdepth > 0 {
+            if rng.chance(2, 3) && !red_levels[lvl - 1] && !(lvl + 1 <= maxdepth && red_levels[lvl + 1]) {
+                red_levels[lvl] = true;
+                lvl += 2;
+            } else {
+                lvl += 1;
+            }
+        }
+        fn build(sorted: &[usize], depth: usize, red_levels: &[bool], slot_of: &[usize], ents: &mut Vec<Option<Ent>>) -> u32 {
             if sorted.is_empty() {
                 return NOSTREAM;
             }
             let mid = sorted.len() / 2;
             let me = slot_of[sorted[mid]];
-            let l = build(&sorted[..mid], depth + 1, maxdepth, slot_of, ents);
-            let r = build(&sorted[mid + 1..], depth + 1, maxdepth, slot_of, ents);
+            let l = build(&sorted[..mid], depth + 1, red_levels, slot_of, ents);
+            let r = build(&sorted[mid + 1..], depth + 1, red_levels, slot_of, ents);
             let e = ents[me].as_mut().unwrap();
             e.left = l;
             e.right = r;
-            e.red = depth == maxdepth && depth > 0;
+            e.red = red_levels[depth];
             me as u32
         }
-        let top = build(&sorted, 0, maxdepth, &slot_of, &mut ents);
+        let top = build(&sorted, 0, &red_levels, &slot_of, &mut ents);
         ents[slot_of[*parent]].as_mut().unwrap().child = top;
     }
     // ---- write
@@ -400,7 +418,8 @@ pub fn gen_tree(rng: &mut Rng, max_entries: usize, big: bool) -> Node {
     fn storage(rng: &mut Rng, name: &str, depth: usize, budget: &mut usize, big: bool) -> Node {
         let mut kids: Vec<Node> = Vec::new();
         let mut used: Vec<crate::api::Key> = Vec::new();
-        let n = if *budget == 0 { 0 } else { rng.below((*budget).min(9) as u64 + 1) as usize };
+        let cap = if rng.chance(1, 3) { 22 } else { 9 };
+        let n = if *budget == 0 { 0 } else { rng.below((*budget).min(cap) as u64 + 1) as usize };
         for _ in 0..n {
             if *budget == 0 {
                 break;
@@ -428,6 +447,25 @@ pub fn gen_tree(rng: &mut Rng, max_entries: usize, big: bool) -> Node {
         }
         let t = |rng: &mut Rng| if rng.chance(1, 3) { 0 } else { 116444736000000000 + rng.below(1u64 << 55) };
         Node::Storage { name: name.to_string(), clsid, bits: if rng.chance(1, 3) { rng.next() as u32 } else { 0 }, ctime: t(rng), mtime: t(rng), kids }
+    }
+    if rng.chance(1, 4) {
+        // a wide root: 8-20 small streams in one sibling tree (depth 3-4, several red levels possible)
+        let n = 8 + rng.below(13) as usize;
+        let mut names: Vec<&str> = NAMES.to_vec();
+        for i in (1..names.len()).rev() {
+            let j = rng.below(i as u64 + 1) as usize;
+            names.swap(i, j);
+        }
+        let mut used: Vec<crate::api::Key> = Vec::new();
+        let mut kids = Vec::new();
+        for nm in names {
+            if kids.len() >= n || used.contains(&key_of(nm)) {
+                continue;
+            }
+            used.push(key_of(nm));
+            kids.push(Node::Stream { name: nm.to_string(), bits: 0, data: pattern(*rng.pick(&[0usize, 5, 64, 200, 4096]), rng.next() % 1000) });
+        }
+        return Node::Storage { name: "Root Entry".into(), clsid: [0; 16], bits: 0, ctime: 0, mtime: 0, kids };
     }
     let mut budget = 1 + rng.below(max_entries as u64) as usize;
     storage(rng, "Root Entry", 0, &mut budget, big)
